@@ -232,6 +232,8 @@ def run_pipeline(pid, tier, seed, presets, per, budget, malmax, over, rounds=1, 
                     stats["mal"][k] = stats["mal"].get(k, 0) + v
                 stats["plan_hashes"] += r.get("plan_hashes", 0)
                 stats["alias_probes"] = stats.get("alias_probes", 0) + r.get("alias_probes", 0)
+                if r.get("odd_vectors") and r["kind"] == "value" and r.get("has_view"):
+                    stats["odd_vector_cases"] = stats.get("odd_vector_cases", 0) + 1
                 stats["distinct"].add(r["hash"])
                 for nt in r.get("notes") or []:
                     key = r["t"] + ": " + nt[:100]
@@ -280,6 +282,8 @@ def coverage_guard(stats, need_mal):
             holes.append(t + ": variable-size type never seen with more than its smallest encoding")
     if holes:
         raise lib.InfraError("coverage holes: " + "; ".join(holes[:20]))
+    if stats.get("odd_vector_cases", 0) == 0:
+        raise lib.InfraError("no struct/view/plan root comparison ran on a type with a vector whose length is not a power of two")
     if stats.get("alias_probes", 0) == 0:
         raise lib.InfraError("no struct->view conversion was probed for argument aliasing")
     if need_mal:
@@ -311,7 +315,8 @@ def evidence_coverage(stats, extra=None):
         "types_bound": len(stats["per_type"]), "tlc_runs": stats["tlc_runs"], "rounds": stats["rounds"],
         "per_preset": stats["per_preset"], "malformed_tried": stats["mal"], "overlimit_cases": stats["overlimit_cases"],
         "sha256_hashes_evaluated_from_plans": stats["plan_hashes"],
-        "struct_to_view_alias_probes": stats.get("alias_probes", 0), "views_checked": stats["views_checked"],
+        "struct_to_view_alias_probes": stats.get("alias_probes", 0),
+        "vector_length_not_power_of_two": stats.get("odd_vector_cases", 0), "views_checked": stats["views_checked"],
         "skipped_too_big_for_tlc": stats["skipped_too_big"],
         "samples": stats["samples"],
         "notes_non_verdict": dict(sorted(stats["notes"].items())[:40]),
